@@ -160,7 +160,13 @@ func (e *Encoder) callCommon(instr ssa.Instruction, cm *ssa.CallCommon, res ssa.
 		}
 	}
 	if fc := e.prog.contractFor(callee); fc != nil {
-		return e.applyContract(fc, callee, args, nil, resT, st, pc, ssn)
+		if e.fc != nil && len(fc.Requires) > 0 && len(fc.Props) > 0 && !sharesProp(fc.Props, e.fc.Props) && !fc.Trusted && !fc.Extern && !e.fc.Synth {
+			// a contract written for another property, with preconditions this caller was never meant to
+			// establish: it is not used here (no obligation, no assumed postcondition) - the call is a heap havoc
+			e.note("call %s: its contract belongs to %s and has preconditions; not used in this function (havoc)", callee.Name(), strings.Join(fc.Props, ","))
+		} else {
+			return e.applyContract(fc, callee, args, nil, resT, st, pc, ssn)
+		}
 	}
 	if v, ok := e.stdlibCall(callee, cm, args, resT, st, pc); ok {
 		return v
